@@ -2,168 +2,17 @@
 
 package enode
 
-// Independent reference for C45 (records): secp256k1 ECDSA verification with
-// math/big, EIP-778 record parsing over kit/refrlp, and the "v4" identity
-// scheme. Shares no code with p2p/enr, p2p/enode, rlp or crypto.
+// Independent reference for C45 (records): EIP-778 record parsing over
+// kit/refrlp and the "v4" identity scheme with kit/refsecp (math/big secp256k1
+// ECDSA) and kit/refkeccak. Shares no code with p2p/enr, p2p/enode, rlp or crypto.
 
 import (
 	"bytes"
-	"math/big"
 
 	"verif.local/kit/refkeccak"
 	"verif.local/kit/refrlp"
+	"verif.local/kit/refsecp"
 )
-
-// ---------------------------------------------------------------------------
-// secp256k1 (y^2 = x^3 + 7 over F_p), affine arithmetic with math/big.
-
-var (
-	c45P, _  = new(big.Int).SetString("fffffffffffffffffffffffffffffffffffffffffffffffffffffffefffffc2f", 16)
-	c45N, _  = new(big.Int).SetString("fffffffffffffffffffffffffffffffebaaedce6af48a03bbfd25e8cd0364141", 16)
-	c45Gx, _ = new(big.Int).SetString("79be667ef9dcbbac55a06295ce870b07029bfcdb2dce28d959f2815b16f81798", 16)
-	c45Gy, _ = new(big.Int).SetString("483ada7726a3c4655da4fbfc0e1108a8fd17b448a68554199c47d08ffb10d4b8", 16)
-	c45HalfN = new(big.Int).Rsh(c45N, 1)
-)
-
-// c45Pt is an affine point; inf marks the point at infinity.
-type c45Pt struct {
-	x, y *big.Int
-	inf  bool
-}
-
-func c45OnCurve(x, y *big.Int) bool {
-	l := new(big.Int).Mul(y, y)
-	l.Mod(l, c45P)
-	r := new(big.Int).Mul(x, x)
-	r.Mul(r, x)
-	r.Add(r, big.NewInt(7))
-	r.Mod(r, c45P)
-	return l.Cmp(r) == 0
-}
-
-func c45Add(a, b c45Pt) c45Pt {
-	if a.inf {
-		return b
-	}
-	if b.inf {
-		return a
-	}
-	var lam *big.Int
-	if a.x.Cmp(b.x) == 0 {
-		s := new(big.Int).Add(a.y, b.y)
-		s.Mod(s, c45P)
-		if s.Sign() == 0 {
-			return c45Pt{inf: true}
-		}
-		// doubling: lam = 3x^2 / 2y
-		num := new(big.Int).Mul(a.x, a.x)
-		num.Mul(num, big.NewInt(3))
-		den := new(big.Int).Lsh(a.y, 1)
-		den.ModInverse(den.Mod(den, c45P), c45P)
-		lam = num.Mul(num, den)
-	} else {
-		num := new(big.Int).Sub(b.y, a.y)
-		den := new(big.Int).Sub(b.x, a.x)
-		den.Mod(den, c45P)
-		den.ModInverse(den, c45P)
-		lam = num.Mul(num, den)
-	}
-	lam.Mod(lam, c45P)
-	x3 := new(big.Int).Mul(lam, lam)
-	x3.Sub(x3, a.x)
-	x3.Sub(x3, b.x)
-	x3.Mod(x3, c45P)
-	y3 := new(big.Int).Sub(a.x, x3)
-	y3.Mul(y3, lam)
-	y3.Sub(y3, a.y)
-	y3.Mod(y3, c45P)
-	return c45Pt{x: x3, y: y3}
-}
-
-// c45MulAdd returns u1*G + u2*Q (Shamir's trick).
-func c45MulAdd(u1, u2 *big.Int, q c45Pt) c45Pt {
-	g := c45Pt{x: c45Gx, y: c45Gy}
-	gq := c45Add(g, q)
-	acc := c45Pt{inf: true}
-	n := u1.BitLen()
-	if u2.BitLen() > n {
-		n = u2.BitLen()
-	}
-	for i := n - 1; i >= 0; i-- {
-		acc = c45Add(acc, acc)
-		b1, b2 := u1.Bit(i), u2.Bit(i)
-		switch {
-		case b1 == 1 && b2 == 1:
-			acc = c45Add(acc, gq)
-		case b1 == 1:
-			acc = c45Add(acc, g)
-		case b2 == 1:
-			acc = c45Add(acc, q)
-		}
-	}
-	return acc
-}
-
-// c45Decompress parses a 33-byte SEC1 compressed point.
-func c45Decompress(b []byte) (c45Pt, bool) {
-	if len(b) != 33 || (b[0] != 2 && b[0] != 3) {
-		return c45Pt{}, false
-	}
-	x := new(big.Int).SetBytes(b[1:])
-	if x.Cmp(c45P) >= 0 {
-		return c45Pt{}, false
-	}
-	rhs := new(big.Int).Mul(x, x)
-	rhs.Mul(rhs, x)
-	rhs.Add(rhs, big.NewInt(7))
-	rhs.Mod(rhs, c45P)
-	e := new(big.Int).Add(c45P, big.NewInt(1))
-	e.Rsh(e, 2)
-	y := new(big.Int).Exp(rhs, e, c45P)
-	if !c45OnCurve(x, y) {
-		return c45Pt{}, false
-	}
-	if y.Bit(0) != uint(b[0]&1) {
-		y.Sub(c45P, y)
-	}
-	return c45Pt{x: x, y: y}, true
-}
-
-// c45VerifySig is ECDSA verification of a 64-byte r||s signature over a 32-byte
-// digest with a compressed public key. Signatures with s > n/2 are refused
-// (documented behaviour of crypto.VerifySignature: no malleable signatures).
-func c45VerifySig(pub33, digest, sig []byte) (ok bool, why string) {
-	if len(sig) != 64 {
-		return false, "sig-len"
-	}
-	q, okq := c45Decompress(pub33)
-	if !okq {
-		return false, "bad-pubkey"
-	}
-	r := new(big.Int).SetBytes(sig[:32])
-	s := new(big.Int).SetBytes(sig[32:])
-	if r.Sign() == 0 || s.Sign() == 0 || r.Cmp(c45N) >= 0 || s.Cmp(c45N) >= 0 {
-		return false, "sig-range"
-	}
-	if s.Cmp(c45HalfN) > 0 {
-		return false, "sig-high-s"
-	}
-	z := new(big.Int).SetBytes(digest)
-	w := new(big.Int).ModInverse(s, c45N)
-	u1 := new(big.Int).Mul(z, w)
-	u1.Mod(u1, c45N)
-	u2 := new(big.Int).Mul(r, w)
-	u2.Mod(u2, c45N)
-	pt := c45MulAdd(u1, u2, q)
-	if pt.inf {
-		return false, "sig-invalid"
-	}
-	v := new(big.Int).Mod(pt.x, c45N)
-	if v.Cmp(r) != 0 {
-		return false, "sig-invalid"
-	}
-	return true, ""
-}
 
 // ---------------------------------------------------------------------------
 // Record reference.
@@ -297,7 +146,7 @@ func c45RefVerifyV4(p *c45Parsed) (bool, string) {
 	if len(it.Str) != 33 {
 		return false, "pubkey-len"
 	}
-	return c45VerifySig(it.Str, refkeccak.Keccak256(p.content()), p.sig)
+	return refsecp.VerifySig(it.Str, refkeccak.Keccak256(p.content()), p.sig)
 }
 
 // c45RefSchemeV4 says whether the "id" entry is the canonical string "v4".
@@ -313,12 +162,12 @@ func c45RefSchemeV4(p *c45Parsed) bool {
 // c45RefNodeID is keccak256(X || Y) of the record's public key.
 func c45RefNodeID(p *c45Parsed) []byte {
 	it, _ := refrlp.Decode(p.value("secp256k1"))
-	q, ok := c45Decompress(it.Str)
+	q, ok := refsecp.Decompress(it.Str)
 	if !ok {
 		return nil
 	}
 	buf := make([]byte, 64)
-	q.x.FillBytes(buf[:32])
-	q.y.FillBytes(buf[32:])
+	q.X.FillBytes(buf[:32])
+	q.Y.FillBytes(buf[32:])
 	return refkeccak.Keccak256(buf)
 }
